@@ -89,6 +89,11 @@ func parseFakeScript(path string) (fakeScript, error) {
 func fakePluginMain() {
 	signal.Ignore(syscall.SIGPIPE)
 	name := strings.TrimPrefix(filepath.Base(os.Args[0]), "thriftrw-plugin-")
+	for _, a := range os.Args[1:] {
+		if strings.HasPrefix(a, "--inst=") { // one of several plugins given under the same name
+			name += "@" + strings.TrimPrefix(a, "--inst=")
+		}
+	}
 	dir := os.Getenv("VERIF_FAKE_DIR")
 	logf, err := os.OpenFile(filepath.Join(dir, name+".log"), os.O_CREATE|os.O_WRONLY|os.O_APPEND, 0o644)
 	if err != nil {
